@@ -734,7 +734,7 @@ func main() {
 	os.MkdirAll(*out, 0o755)
 	writeAccesses(filepath.Join(*out, "Accesses.lean"), accesses)
 	writeLockSites(filepath.Join(*out, "LockSites.lean"), callbacks, writes, nested)
-	writeRegistryFacts(filepath.Join(*out, "RegistryFacts.lean"), sections, mapOps, fieldCall)
+	writeRegistryFacts(filepath.Join(*out, "RegistryFacts.lean"), sections, mapOps, fieldCall, pk[0])
 	writeDispatchFacts(filepath.Join(*out, "DispatchFacts.lean"), pk[0])
 	writeDecisions(filepath.Join(*out, "Decisions.lean"), pk[0])
 	writeSinkFacts(filepath.Join(*out, "SinkFacts.lean"), pk[4])
@@ -1068,7 +1068,7 @@ func writeLockSites(path string, cbs, writes, nested []callback) {
 	os.WriteFile(path, []byte(sb.String()), 0o644)
 }
 
-func writeRegistryFacts(path string, sections map[string]int, mapOps, fieldCall []callback) {
+func writeRegistryFacts(path string, sections map[string]int, mapOps, fieldCall []callback, root *pkgInfo) {
 	var sb strings.Builder
 	sb.WriteString("/- GENERATED by harness/cmd/gofacts from /repo's current source. Do not edit. -/\nnamespace Evl.Generated\n\n")
 	sb.WriteString("/-- acquisitions of Broker.lock per exported Broker method (one critical section each) -/\ndef brokerSections : List Nat := [\n")
@@ -1127,6 +1127,37 @@ func writeRegistryFacts(path string, sections map[string]int, mapOps, fieldCall 
 		sb.WriteString(parts[0] + sep + " -- " + parts[1] + "\n")
 	}
 	sb.WriteString("]\n\n")
+	// graphMap is a sync.Map and nothing else: one field, and Range / Store / Delete are one call on it each
+	// (the trusted base assumes sync.Map's per-key atomicity and Range semantics for the pipeline map)
+	plain := false
+	var ts *ast.TypeSpec
+	for _, f := range root.files {
+		ast.Inspect(f, func(n ast.Node) bool {
+			if t, ok := n.(*ast.TypeSpec); ok && t.Name.Name == "graphMap" {
+				ts = t
+			}
+			return true
+		})
+	}
+	if ts != nil {
+		if st, ok := ts.Type.(*ast.StructType); ok && len(st.Fields.List) == 1 && len(st.Fields.List[0].Names) == 1 &&
+			exprString(root.fset, st.Fields.List[0].Type) == "sync.Map" {
+			plain = true
+			fld := st.Fields.List[0].Names[0].Name
+			for _, m := range []string{"Range", "Store", "Delete"} {
+				fd := root.funcs["graphMap."+m]
+				if fd == nil || len(fd.Body.List) != 1 {
+					plain = false
+					continue
+				}
+				es, ok := fd.Body.List[0].(*ast.ExprStmt)
+				if !ok || !strings.HasPrefix(exprString(root.fset, es.X), "g."+fld+"."+m+"(") {
+					plain = false
+				}
+			}
+		}
+	}
+	sb.WriteString(fmt.Sprintf("/-- graphMap is exactly a sync.Map: one field, Range / Store / Delete are one call on it each -/\ndef graphMapPlain : Bool := %v\n\n", plain))
 	// gated: composition and Broker sends happen while Filter.l is held exclusively
 	sb.WriteString("/-- gated.Filter: calls of composeFrom / Broker.Send, with whether Filter.l is held exclusively there -/\ndef gatedCalls : List (Nat × Bool) := [\n")
 	var gl []string
